@@ -76,6 +76,10 @@ HAND_BAD = [
     ('permit(principal is NS::User, action == NS::Action::"view", resource) when { principal has addr || principal.addr.street == "x" };', "guard_wrong_side_of_or"),
     ('permit(principal is NS::User, action == NS::Action::"view", resource) when { if principal has c then true else principal.c == NS::Color::"red" };', "guard_in_else"),
     ('permit(principal is NS::User, action == NS::Action::"view", resource) when { !(principal has c) && principal.c == NS::Color::"red" };', "capability_after_not"),
+    ('permit(principal is NS::User, action == NS::Action::"view", resource) when { (if principal has c then true else true) && principal.c == NS::Color::"red" };', "if_test_capability_after"),
+    ('permit(principal is NS::User, action == NS::Action::"view", resource) when { (if principal has c then principal.c == NS::Color::"red" else !(principal has c)) && principal.c == NS::Color::"red" };', "if_test_capability_after"),
+    ('permit(principal is NS::User, action == NS::Action::"view", resource) when { (if principal has addr then principal has c else true) && principal.c == NS::Color::"red" };', "if_branch_capability_after"),
+    ('permit(principal is NS::User, action == NS::Action::"view", resource) when { (principal has c || !(principal has c)) && principal.c == NS::Color::"red" };', "or_capability_after"),
     ('permit(principal is NS::User, action == NS::Action::"view", resource) when { principal.getTag("t1").contains("a") };', "tag_without_hastag"),
     ('permit(principal is NS::User, action == NS::Action::"view", resource) when { principal.hasTag("t1") && principal.getTag("t 2").contains("a") };', "tag_other_key"),
     ('permit(principal, action == NS::Action::"view", resource) when { principal has addr && principal.addr.street == "x" };', "wrong_env"),
@@ -126,6 +130,29 @@ def gen_cases(rng, sid, npol):
             # mostly the environment the body is typed for; sometimes another one that the scope lets through
             env = p.env if rng.random() < 0.8 else rng.choice(envs_all)
             envs.append(tgen.gen_env(rng, sg.rs, env, hints))
+        out.append(Case(sid, sg, text, p.fault, p.expect, p.guarded, p.slots, envs, p.features, p.policy))
+    return out + gen_capability_cases(rng, sid, sg)
+
+
+# the capability algebra of if / && / || is where "two sites that each look fine alone" live: one forced policy per
+# schema for each of these faults (the random stream reaches each of them only a handful of times per run)
+CAPABILITY_FAULTS = ["guard_wrong_side_of_or", "guard_in_else", "capability_after_not", "if_test_capability_after",
+                     "if_branch_capability_after", "or_capability_after", "guard_other_attr", "tag_other_key"]
+
+
+def gen_capability_cases(rng, sid, sg):
+    out = []
+    envs_all = tgen.request_envs(sg.rs)
+    for f in CAPABILITY_FAULTS:
+        try:
+            p = tgen.gen_policy(rng, sg.rs, depth=rng.choice([1, 2]), fault=f)
+            text = tgen.policy_text(p)
+        except (cedar.NotExpressible, RuntimeError, IndexError, KeyError):
+            continue
+        if p.fault != f:
+            continue
+        hints = tgen.policy_uids(p)
+        envs = [tgen.gen_env(rng, sg.rs, p.env if rng.random() < 0.8 else rng.choice(envs_all), hints) for _ in range(N_ENVS)]
         out.append(Case(sid, sg, text, p.fault, p.expect, p.guarded, p.slots, envs, p.features, p.policy))
     return out
 
